@@ -91,6 +91,12 @@ func describe(v starlark.Value) D {
 			d.KV = append(d.KV, [2]D{dstr(n), describe(a)})
 		}
 		return d
+	case *rec:
+		d := D{T: "struct", KV: [][2]D{}}
+		for i, n := range v.names {
+			d.KV = append(d.KV, [2]D{dstr(n), describe(v.vals[i])})
+		}
+		return d
 	}
 	return D{T: "other"}
 }
@@ -508,6 +514,28 @@ func realDecode(doc string, dflt starlark.Value) (v starlark.Value, r R) {
 	return v, R{OK: true, V: &d}
 }
 
+// rec is an application-defined HasAttrs value whose AttrNames() are NOT sorted
+// (starlarkstruct sorts them itself): json.encode must sort the names.
+type rec struct {
+	names []string
+	vals  []starlark.Value
+}
+
+func (r *rec) String() string        { return "rec(...)" }
+func (r *rec) Type() string          { return "rec" }
+func (r *rec) Freeze()               {}
+func (r *rec) Truth() starlark.Bool  { return true }
+func (r *rec) Hash() (uint32, error) { return 0, fmt.Errorf("unhashable") }
+func (r *rec) AttrNames() []string   { return append([]string(nil), r.names...) }
+func (r *rec) Attr(name string) (starlark.Value, error) {
+	for i, n := range r.names {
+		if n == name {
+			return r.vals[i], nil
+		}
+	}
+	return nil, nil
+}
+
 // ------------------------------------------------------------ value generator
 
 type vgen struct{ r *hx.Rand }
@@ -699,6 +727,14 @@ func (g *vgen) tree(depth int) starlark.Value {
 		}
 		return d
 	}
+	if g.r.Intn(3) == 0 {
+		r := &rec{}
+		for _, k := range g.keys(n) {
+			r.names = append(r.names, k)
+			r.vals = append(r.vals, g.tree(depth-1))
+		}
+		return r
+	}
 	sd := starlark.StringDict{}
 	for _, k := range g.keys(n) {
 		sd[k] = g.tree(depth - 1)
@@ -708,7 +744,7 @@ func (g *vgen) tree(depth int) starlark.Value {
 
 var valClasses = []string{"scalar-none", "scalar-bool", "int-small", "int-big", "float-nice", "float-bits",
 	"str-ascii", "str-control", "str-unicode", "str-invalid-utf8", "list", "tuple", "dict", "dict-nonstring-key",
-	"struct", "nested", "nested", "nested", "other"}
+	"struct", "struct-unsorted", "nested", "nested", "nested", "other"}
 
 func (g *vgen) gen(cls string) starlark.Value {
 	switch cls {
@@ -761,6 +797,13 @@ func (g *vgen) gen(cls string) starlark.Value {
 			sd[k] = g.scalar()
 		}
 		return starlarkstruct.FromStringDict(starlarkstruct.Default, sd)
+	case "struct-unsorted":
+		r := &rec{}
+		for _, k := range g.keys(2 + g.r.Intn(4)) {
+			r.names = append(r.names, k)
+			r.vals = append(r.vals, g.scalar())
+		}
+		return r
 	case "other":
 		f := starlark.NewBuiltin("f", nil)
 		switch g.r.Intn(3) {
